@@ -106,7 +106,8 @@ def classify(case, result):
 def shrink_candidates(case):
     groups = case.split()
     for k in range(len(groups)):
-        yield ' '.join(groups[:k] + groups[k + 1:])
+        if len(groups) > 1:
+            yield ' '.join(groups[:k] + groups[k + 1:])
     for k, g in enumerate(groups):
         if g[0] in 'IT':
             ops = g[2:].split(';')
@@ -130,7 +131,7 @@ def run(ctx):
         stress = [c[1] for c in ctx.replay['cases'] if c[0] == 'stress']
     else:
         cases = list(CORPUS)
-        n = 2500 if ctx.quick() else 40000
+        n = 6000 if ctx.quick() else 40000
         while len(cases) < n:
             cases.append(gen_case(ctx.rng))
         stress = ['100 6 2500', '8 4 1500'] if ctx.quick() else ['100 8 30000', '125 4 8000', '8 8 8000']
@@ -182,17 +183,17 @@ def run(ctx):
     for line in stress:
         out = ctx.harness('db_stress', [line], timeout=600)[0]
         stress_out.append([line, out])
-        m = re.match(r'reads=(\d+) mixed=(\d+) backwards=(\d+) txns=(\d+) distinct=(\d+) errors=(\d+)', out)
+        m = re.match(r'reads=(\d+) mixed=(\d+) backwards=(\d+) txns=(\d+) distinct=(\d+) errors=(\d+) client_writes=(\d+)', out)
         if not m:
             ctx.oblige('stress-ran', False, f'{line}: {out}')
             continue
-        reads, mixed, backwards, txns, distinct, errors = map(int, m.groups())
+        reads, mixed, backwards, txns, distinct, errors, client_writes = map(int, m.groups())
         total_reads += reads
         if mixed or backwards:
             ctx.violation('transaction-partially-visible', f'stress `{line}` (points clients ms): {mixed} of {reads} multi-point replies mix values of different transactions, {backwards} went backwards: {out}',
                           {'cases': [['stress', line]], 'impl': out, 'spec': 'mixed=0 backwards=0'})
         ctx.oblige(f'stress:{line.replace(" ", "/")}', mixed == 0 and backwards == 0 and errors == 0, out)
-        if not ctx.replay and (reads < 200 or txns < 50 or distinct < 20):
+        if not ctx.replay and (reads < 200 or txns < 50 or distinct < 20 or client_writes < 20):
             ctx.oblige('stress-interleaves', False, f'{line}: too little interleaving to mean anything: {out}')
     if not ctx.replay:
         need = ['configure-callback', 'transaction', 'client-read', 'read-absent-exception-02', 'read-values', 'get-absent', 'bool-T', 'bool-F']
